@@ -190,3 +190,28 @@ register(Contract(
         assume={'R-ind': 'rind(%s, %s, set(seen))' % (SG, IT_START)})},
     properties=['C16'], gen='iter_scfg',
 ))
+
+# ---- SCFG.iter_subregions (C04: "walking region by region"): every region block of this level, each followed by the
+# regions below it (the recursive call is used through this same contract: on a sub-graph it yields region_names(sub))
+_ISR = 'isinstance(%s[%%s], RegionBlock)' % SG
+register(Contract(
+    qual=SC + ':SCFG.iter_subregions', params={'self': 'SCFG'}, returns='set[name]', yield_key='name', yield_ghost='region_names',
+    # a directly yielded item is a region block of this level (at run time the nested items come through the same stream)
+    yield_check='(isinstance(it, RegionBlock) and it == self.graph[it.name]) if it.name in self.graph else'
+                ' any(it.name in region_names(self.graph[r].subregion) for r in self.graph if isinstance(self.graph[r], RegionBlock))',
+    requires={
+        'keys': 'all(%s[k].name == k for k in %s)' % (SG, SG),
+        # region names are unique across the hierarchy (C04)
+        'unique-level': 'all(k not in region_names(%s[r].subregion) for k in %s if %s for r in %s if %s)' % (SG, SG, _ISR % 'k', SG, _ISR % 'r'),
+        'unique-regions': 'all(implies(n in region_names(%s[r1].subregion) and n in region_names(%s[r2].subregion), r1 == r2)'
+                          ' for r1 in %s if %s for r2 in %s if %s for n in region_names(%s[r1].subregion))'
+                          % (SG, SG, SG, _ISR % 'r1', SG, _ISR % 'r2', SG),
+    },
+    yields='{k for k in %s if %s} | {n for r in %s if %s for n in region_names(%s[r].subregion)}' % (SG, _ISR % 'k', SG, _ISR % 'r', SG),
+    ensures={'exactly': 'result == {k for k in %s if %s} | {n for r in %s if %s for n in region_names(%s[r].subregion)}'
+                        % (SG, _ISR % 'k', SG, _ISR % 'r', SG)},
+    loops={'for node in self.graph.values()': LoopSpec(done='_done', inv={
+        'yielded': '_yielded == {k for k in _done if %s} | {n for r in _done if %s for n in region_names(%s[r].subregion)}'
+                   % (_ISR % 'k', _ISR % 'r', SG)})},
+    properties=['C04', 'C16'], gen='iter_scfg',
+))
